@@ -6,6 +6,7 @@ func init() {
 		Harness: hb("c07_wire.go"),
 		Entries: []EntrySpec{
 			{Pkg: "biscuit", Func: "VerifC07Wire", Quick: p("namelen", 1, "blkfocus", 0, "symterms", 1), Thorough: p("namelen", 4, "blkfocus", 0, "symterms", 0), Covers: []string{"decoded", "roundtrip"}},
+			{Pkg: "biscuit", Func: "VerifC07Wire", Quick: p("namelen", 1, "blkfocus", 0, "symterms", 1, "padblocks", 3), Thorough: p("namelen", 1, "blkfocus", 0, "symterms", 1, "padblocks", 3), Covers: []string{"decoded", "roundtrip"}},
 			{Pkg: "biscuit", Func: "VerifC07Wire", Quick: nil, Thorough: p("namelen", 1, "blkfocus", 0, "symterms", 1), Covers: []string{"decoded", "roundtrip"}},
 			{Pkg: "biscuit", Func: "VerifC07Defaults", Quick: p("namelen", 4), Thorough: p("namelen", 5), Covers: []string{"decoded", "default-or-shared-symbol"}},
 			{Pkg: "biscuit", Func: "VerifC07Version", Quick: p("arities", 1, "setsecond", 2), Thorough: p("arities", 1, "setsecond", 2), Covers: []string{"checked"}},
